@@ -42,8 +42,11 @@ def rand_aberrations(rng, allow_dist=False):
         if name in ANGLE:
             out[ANGLE[name]] = round(rng.uniform(-3, 3), 3)
     dist = None
-    if allow_dist and rng.random() < 0.4:
-        dist = ("C10", [round(rng.uniform(-300, 300), 2) for _ in range(rng.randint(2, 3))])
+    if allow_dist and rng.random() < 0.5:
+        if rng.random() < 0.5:
+            dist = ("C10", [round(rng.uniform(-300, 300), 2) for _ in range(rng.randint(2, 3))])
+        else:  # weighted (Gaussian quadrature) distribution: members carry weights w_i != 1
+            dist = (rng.choice(["C10", "C30"]), {"gaussian": [round(rng.uniform(5, 80), 2), rng.randint(2, 4), round(rng.uniform(-50, 50), 2)]})
     return out, dist
 
 
@@ -81,7 +84,15 @@ def build_probe(case):
         cutoff = from_values(case["cutoff_dist"])
     ab = dict(case["aberrations"])
     if case.get("aberration_dist"):
-        ab[case["aberration_dist"][0]] = from_values(case["aberration_dist"][1])
+        spec = case["aberration_dist"][1]
+        if isinstance(spec, dict):
+            from abtem.distributions import gaussian
+
+            sd, ns, center = spec["gaussian"]
+            scale = 1.0 if case["aberration_dist"][0] == "C10" else 1e3
+            ab[case["aberration_dist"][0]] = gaussian(standard_deviation=sd * scale, num_samples=ns, center=center * scale)
+        else:
+            ab[case["aberration_dist"][0]] = from_values(spec)
     tilt = case["tilt"]
     if isinstance(tilt, dict):
         tilt = (from_values(tilt["x"]), tilt["y"])
@@ -235,20 +246,20 @@ class C05(Property):
                     waves = build_probe(case)
                 except Exception as e:  # noqa
                     ens = bool(case.get("cutoff_dist") or case.get("aberration_dist") or isinstance(case["tilt"], dict))
-                    if ens:
-                        # ensemble plumbing (parameter distributions) is C03's subject: counted, not a normalisation violation
-                        ctx.count(f"probe-build-raises(ensemble axes, see C03):{type(e).__name__}:{'hard' if not case['soft'] else 'soft'}"
-                                  f":cutoff-dist={bool(case.get('cutoff_dist'))}")
-                    else:
-                        ctx.violation(f"plain-probe-build-raises:{'hard' if not case['soft'] else 'soft'}-aperture", case,
-                                      dict(error=f"{type(e).__name__}: {e}"[:300]))
+                    # a probe that cannot be built violates "every probe built by Probe.build …" for that input class
+                    ctx.violation(f"probe-build-raises:{type(e).__name__}:{'hard' if not case['soft'] else 'soft'}"
+                                  f":cutoff-dist={bool(case.get('cutoff_dist'))}:aberr-dist={case.get('aberration_dist') is not None}"
+                                  f":tilt-dist={isinstance(case['tilt'], dict)}" if ens else
+                                  f"plain-probe-build-raises:{'hard' if not case['soft'] else 'soft'}-aperture", case,
+                                  dict(error=f"{type(e).__name__}: {e}"[:300]))
                     return
                 tot = np.asarray(recip_intensity(waves.array)).reshape(-1)
                 bad = np.abs(tot - 1) > tol
                 if not np.all(np.isfinite(tot)) or bad.any():
                     ctx.violation("probe-reciprocal-intensity-not-one", case, dict(shape=list(waves.shape), totals=tot[:8].tolist()))
                 ctx.count(f"probe:{'soft' if case['soft'] else 'hard'}:members={tot.size}:{'lazy' if case['lazy'] else 'eager'}:"
-                          f"aberr-dist={case.get('aberration_dist') is not None}:tilt-dist={isinstance(case['tilt'], dict)}")
+                          f"aberr-dist={'weighted' if isinstance((case.get('aberration_dist') or [0, 0])[1], dict) else case.get('aberration_dist') is not None}"
+                          f":tilt-dist={isinstance(case['tilt'], dict)}")
             else:
                 import abtem
 
